@@ -448,6 +448,12 @@ func CasketfileFromPipe(f *os.File, serverType string) (Input, error) {
 		if err != nil {
 			return nil, err
 		}
+		if len(confBody) == 0 {
+			// nothing (more) to read from the pipe: no input, rather than
+			// an empty Casketfile (on a reload the pipe is at its end; the
+			// empty input would replace the running configuration)
+			return nil, nil
+		}
 		return CasketfileInput{
 			Contents:       confBody,
 			Filepath:       f.Name(),
